@@ -4,7 +4,7 @@ dispatch tables are inverse."""
 from vlib import fixtures
 import re
 
-from rules import pair, order, trunc, partial, capsrc
+from rules import pair, order, trunc, partial, capsrc, remainder
 from rules.variant import storage_switches, arm_region
 from vlib.mir import Fn, op_local
 from vlib.run import Broken
@@ -18,7 +18,7 @@ NAME_PAIRS = [("serialize", "deserialize"), ("serialize_with_version", "deserial
 
 def run(ctx):
     fx = ctx.facts("default")
-    fixtures.run(ctx, ['pair', 'marker', 'varint', 'partial', 'clamploop'])
+    fixtures.run(ctx, ['pair', 'marker', 'varint', 'partial', 'clamploop', 'remainder'])
     # 1. primitives: every DataOutput::write_K against every DataInput::read_K
     W, Rd = {}, {}
     for fid in fx.fn_ids():
@@ -127,6 +127,8 @@ def run(ctx):
     # a count clamped for the reservation is not the bound of the element loop
     capsrc.clamped_count(ctx, fx, [f for f in fx.files() if f.startswith('src/io/') or ctx.tier == 'thorough'])
     ctx.floor('R-CLAMPLOOP.clamps', 3)
+    # bulk conversions over value slices handle the tail of chunks_exact
+    remainder.run(ctx, fx, [f for f in fx.files() if f.startswith('src/io/')])
     return dict(
         level_note="decides format agreement (widths, endianness, field order, prefix kinds, inverse dispatch); value round "
                    "trips (7-bit grouping, zigzag, delta, group-varint arithmetic), SIMD/scalar byte identity and buffered "
